@@ -9,6 +9,7 @@ pub mod c28;
 pub mod c30;
 pub mod c31;
 pub mod c33;
+pub mod c40;
 
 #[derive(Clone, Copy, Debug, PartialEq, Eq)]
 pub enum Tier {
@@ -97,6 +98,7 @@ pub fn make(id: &str) -> Option<Box<dyn Check>> {
         "C30" => Some(Box::new(c30::C30::new())),
         "C31" => Some(Box::new(c31::C31::new())),
         "C33" => Some(Box::new(c33::C33::new())),
+        "C40" => Some(Box::new(c40::C40::new())),
         _ => None,
     }
 }
